@@ -412,9 +412,15 @@ func (d *Decoder) decodeVal(rv reflect.Value) error {
 		return d.decodeNegative(rv, additional)
 	case byteStringMajorType:
 		allocateInterface(rv, reflect.TypeOf([]byte(nil)))
+		if rv.Kind() == reflect.String {
+			return fmt.Errorf("%w: cannot decode a byte string into a Go string", ErrUnsupportedType{typeName: rv.Type().String()})
+		}
 		return d.decodeByteSlice(rv, additional)
 	case textStringMajorType:
 		allocateInterface(rv, reflect.TypeOf(""))
+		if rv.Kind() != reflect.String && !(rv.Kind() == reflect.Interface) {
+			return fmt.Errorf("%w: cannot decode a text string into a byte slice or array", ErrUnsupportedType{typeName: rv.Type().String()})
+		}
 		return d.decodeByteSlice(rv, additional)
 	case arrayMajorType:
 		allocateInterface(rv, reflect.TypeOf([]any(nil)))
